@@ -38,6 +38,9 @@ type WorkerOut struct {
 	ShrinkRuns int               `json:"shrink_runs"`
 	TimedOut   bool              `json:"timed_out"`
 	Decisions  map[string]uint64 `json:"decisions"` // simulator decisions asked/fired per kind
+	// violations observed in the worker process that do not reproduce from their plan alone
+	Unreproduced     int    `json:"unreproduced"`
+	UnreproducedNote string `json:"unreproduced_note"`
 }
 
 type ViolationOut struct {
@@ -126,14 +129,46 @@ func WorkerMain(args []string) int {
 				min, minRes, runs = Minimise(prop, plan, res, 3000)
 				out.ShrinkRuns += runs
 			}
-			seenViol[minRes.Violation.Class+"|"+minRes.Violation.Key] = true
-			min = min.Clone()
-			v := *minRes.Violation
-			min.Expect = &v
 			path := ""
 			if *replays != "" {
 				_ = os.MkdirAll(*replays, 0o755)
 				path = filepath.Join(*replays, fmt.Sprintf("%s-%d-%d.json", *propID, *seed, i))
+			}
+			if path != "" && !*noShrink {
+				// the minimised plan must fail the same way in a fresh process; if the
+				// violation depends on process state the in-process shrinker may have been
+				// misled: redo the minimisation with one fresh process per candidate.
+				if r := runInFreshProcess(min, path); r == nil || r.Violation == nil || r.Violation.Class != res.Violation.Class {
+					start := plan
+					if !plan.Explicit {
+						q := plan.Clone()
+						q.Explicit = true
+						q.Decisions = append([]simrt.Decision{}, res.Recorded...)
+						start = q
+					}
+					if r0 := runInFreshProcess(start, path); r0 != nil && r0.Violation != nil && r0.Violation.Class == res.Violation.Class {
+						r0.Pinned = nil
+						var runs int
+						min, minRes, runs = MinimiseWith(prop, start, r0, 150, func(q *Plan) *Result { return runInFreshProcess(q, path) })
+						out.ShrinkRuns += runs
+					} else {
+						// seen inside this worker process only: the plan alone does not fail in a
+						// fresh process, so the outcome depended on earlier plans of this process.
+						// Not reportable as a replayable violation; keep searching.
+						out.Unreproduced++
+						if out.UnreproducedNote == "" {
+							out.UnreproducedNote = fmt.Sprintf("plan %d: %s: %s", i, res.Violation.Class, tail(res.Violation.Detail, 1500))
+						}
+						delete(seenViol, vk)
+						continue
+					}
+				}
+			}
+			seenViol[minRes.Violation.Class+"|"+minRes.Violation.Key] = true
+			min = min.Clone()
+			v := *minRes.Violation
+			min.Expect = &v
+			if path != "" {
 				b, _ := json.MarshalIndent(min, "", " ")
 				if err := os.WriteFile(path, b, 0o644); err != nil {
 					out.Infra = err.Error()
@@ -152,6 +187,35 @@ func WorkerMain(args []string) int {
 		return 2
 	}
 	return 0
+}
+
+// runInFreshProcess executes a plan through `verifsim replay` in a new process
+// and returns its violation (nil result on trouble).
+func runInFreshProcess(p *Plan, path string) *Result {
+	self, err := os.Executable()
+	if err != nil {
+		return nil
+	}
+	q := p.Clone()
+	q.Expect = nil
+	b, _ := json.Marshal(q)
+	tmp := path + ".cand"
+	if os.WriteFile(tmp, b, 0o644) != nil {
+		return nil
+	}
+	defer os.Remove(tmp)
+	cmd := exec.Command(self, "replay", "-quiet", "-file", tmp)
+	cmd.Env = append(os.Environ(), "GOMAXPROCS=1")
+	outb, _ := cmd.Output()
+	for _, line := range strings.Split(string(outb), "\n") {
+		if strings.HasPrefix(line, "REPLAY-RESULT ") {
+			var v Violation
+			if json.Unmarshal([]byte(strings.TrimPrefix(line, "REPLAY-RESULT ")), &v) == nil {
+				return &Result{Violation: &v}
+			}
+		}
+	}
+	return &Result{}
 }
 
 // ReplayMain: verifsim replay -file f ; exit 1 + VIOLATION line when the plan fails as expected,
@@ -360,9 +424,14 @@ func BatchMain(args []string) int {
 			agg.Samples = append(agg.Samples, r.out.Samples...)
 		}
 		agg.Violations = append(agg.Violations, r.out.Violations...)
+		agg.Unreproduced += r.out.Unreproduced
+		if agg.UnreproducedNote == "" {
+			agg.UnreproducedNote = r.out.UnreproducedNote
+		}
 	}
 	// determinism self-test: same plans, other processes, other GOMAXPROCS
 	selfPairs := 0
+	selfFail := ""
 	if *selfN > 0 {
 		for _, gmp := range []int{4, 16} {
 			r := runWorker(gmp, "-prop", *propID, "-tier", *tier, "-seed", fmt.Sprint(*seed), "-from", "0", "-to", fmt.Sprint(*selfN),
@@ -374,9 +443,8 @@ func BatchMain(args []string) int {
 			for k, v := range r.out.Digests {
 				if a, ok := agg.Digests[k]; ok {
 					selfPairs++
-					if a != v {
-						fmt.Fprintf(os.Stderr, "INFRA: determinism self-test failed: plan %s digest %016x vs %016x (GOMAXPROCS=%d)\n", k, a, v, gmp)
-						return 2
+					if a != v && selfFail == "" {
+						selfFail = fmt.Sprintf("determinism self-test failed: plan %s digest %016x vs %016x (GOMAXPROCS=%d)", k, a, v, gmp)
 					}
 				}
 			}
@@ -476,6 +544,15 @@ func BatchMain(args []string) int {
 	}
 	fmt.Printf("verifsim: %d plans, %d simulated runs, %d distinct non-trivial, %d events, %.1fs, faults=%v\n",
 		agg.Plans, agg.Evals, len(sigs), agg.Events, wall, agg.Faults)
+	if len(fresh) == 0 && agg.Unreproduced > 0 {
+		fmt.Fprintf(os.Stderr, "INFRA: %d violation(s) were observed inside worker processes but none reproduces from its plan alone in a fresh process (the outcome depended on earlier plans run by the same process); first: %s\n", agg.Unreproduced, agg.UnreproducedNote)
+		return 2
+	}
+	if len(fresh) == 0 && selfFail != "" {
+		// the same plan gave different event traces in two processes and no property violation explains it
+		fmt.Fprintf(os.Stderr, "INFRA: %s\n", selfFail)
+		return 2
+	}
 	if len(fresh) > 0 {
 		for _, v := range fresh {
 			fmt.Printf("VIOLATION property=%s replay=%s\n", *propID, v.Replay)
